@@ -1403,7 +1403,7 @@ Lemma sle_setup_msol islle j st o o' : sle_setup islle j st o = (o', None) ->
   so_msol o' = nthq (vadd (s_l st) (s_s st)) j.
 Proof.
   unfold sle_setup. destruct (qzerob _); [intros H; inversion H|].
-  destruct (opt_eqb _ _ _); [intros H; inversion H; reflexivity|].
+  destruct (opt_eqb _ _ _); [cbn [so_idx so_nz]; destruct (pos j _); intros H; inversion H; reflexivity|].
   destruct (Nat.eqb _ 1); [intros H; inversion H; reflexivity|].
   destruct (pos j _); intros H; inversion H; reflexivity.
 Qed.
@@ -1509,4 +1509,50 @@ Lemma lle_cached_nonneg_lemma islle rr K molL top mws s s' phi :
 Proof.
   intros W N HK HP H. unfold lle_cached_phi in HP. apply phase_fraction_range in HP.
   eapply lle_nonneg_lemma; eauto. unfold lle_hyp. cbn [lo_cache lo_phi lo_K]. split; [lra|exact HK].
+Qed.
+
+(* ---------- the indexer rows the VLE works on, across an in-place widening of the phases ---------- *)
+
+Lemma pos_from_combine : forall l k p,
+  kc_get p (combine l (seq k (length l))) = pos_from k p l.
+Proof.
+  induction l as [|a t IH]; intros k p; cbn; [reflexivity|].
+  destruct (Nat.eqb a p); [reflexivity|]. apply IH.
+Qed.
+Lemma kc_for_pos : forall l p, kc_get p (kc_for l) = pos p l.
+Proof. intros. unfold kc_for, pos. apply pos_from_combine. Qed.
+
+Lemma pos_from_lt : forall l k p i, pos_from k p l = Some i -> (k <= i /\ i - k < length l)%nat /\ nth (i - k) l 0%nat = p.
+Proof.
+  induction l as [|a t IH]; intros k p i H; cbn in H; [discriminate|].
+  destruct (Nat.eqb a p) eqn:E.
+  - injection H as <-. apply Nat.eqb_eq in E. rewrite Nat.sub_diag. cbn. repeat split; lia || assumption.
+  - destruct (IH _ _ _ H) as [[A B] C]. repeat split; try (cbn; lia).
+    replace (i - k)%nat with (S (i - S k)) by lia. cbn. exact C.
+Qed.
+
+Lemma nth_map_vec : forall (f : nat -> vec) l i, (i < length l)%nat -> nth i (map f l) [] = f (nth i l 0%nat).
+Proof.
+  intros f l i H. rewrite (nth_indep _ [] (f 0%nat)) by (rewrite map_length; exact H). apply map_nth.
+Qed.
+
+(* a coherent indexer hands out, for every key, the row that belongs to that phase *)
+Definition ixr_ok (x : ixr) : Prop := forall p, row_of x p = row_phys x p.
+
+Lemma kc_for_ok : forall phs rows, ixr_ok (mkixr phs rows (kc_for phs)).
+Proof.
+  intros phs rows p. unfold row_of, row_phys. cbn [ix_kc ix_ph ix_rows]. rewrite kc_for_pos.
+  destruct (pos p phs); reflexivity.
+Qed.
+
+Lemma expand_rows_lemma : forall x all n p,
+  ixr_ok (expand_phases x all n) /\
+  (forall i, pos p all = Some i ->
+     row_of (expand_phases x all n) p =
+     match pos p (ix_ph x) with Some j => nth j (ix_rows x) [] | None => repeat 0 n end).
+Proof.
+  intros x all n p. split; [apply kc_for_ok|].
+  intros i Hi. unfold expand_phases. rewrite (kc_for_ok all _ p). unfold row_phys. cbn [ix_ph ix_rows]. rewrite Hi.
+  destruct (pos_from_lt all 0 p i Hi) as [[_ B] C]. rewrite Nat.sub_0_r in B, C.
+  rewrite (nth_map_vec _ all i B). rewrite C. reflexivity.
 Qed.
